@@ -245,6 +245,87 @@ def ob_multilocation_handler(env):
         env.claim("mixed_arguments_refused", True)
 
 
+# ---------------------------------------------------------------------------------------------
+def _circ(env, coefs):
+    import hypnotoad.cases.circular as circ
+    c = circ.CircularEquilibrium.__new__(circ.CircularEquilibrium)
+    R0, B0 = env.real("R0", lo=1, hi=9), env.real("B0", lo=0.1, hi=9)
+    c.user_options = types.SimpleNamespace(R0=R0, B0=B0, q_coefficients=coefs)
+    return c, circ, R0, B0
+
+
+def _mk_circular_profile(ncoef):
+    """1-D profile functions of the circular equilibrium: dpsidr_r = d/dr psi_r (1 coefficient), d2psidr2_r = d/dr dpsidr_r, dqdr = d/dr q"""
+    def body(env):
+        from symx.jets import Jet1
+        coefs = [env.real("q%d" % k, lo=0.5, hi=5) for k in range(ncoef)]
+        c, circ, R0, B0 = _circ(env, coefs)
+        t = env.real("t", lo=0.05, hi=0.9)
+        r = R0 * 2 * t / (1 + t * t)  # 0 < r < R0, sqrt(1 - r^2/R0^2) = (1-t^2)/(1+t^2)
+        if env.mode == "sym":
+            env.sqrt_hints = [core.lift_real((1 - t * t) / (1 + t * t))]
+            with patched((circ, "np", PROXY)):
+                rj = Jet1(r, 1, 0)
+                q = Jet1.lift(c.q(rj))
+                dp = Jet1.lift(c.dpsidr_r(rj))
+                env.claim_eq("dqdr=d/dr_q", c.dqdr(r), q.d)
+                env.claim_eq("d2psidr2_r=d/dr_dpsidr_r", c.d2psidr2_r(r), dp.d)
+                if ncoef == 1:
+                    ps = Jet1.lift(c.psi_r(rj))
+                    env.claim_eq("dpsidr_r=d/dr_psi_r", c.dpsidr_r(r), ps.d)
+                    env.claim_eq("psi_r(0)=0", c.psi_r(0 * r), 0)
+        else:
+            h = 1e-6
+            env.claim("dqdr=d/dr_q", bool(env.close(c.dqdr(r), (c.q(r + h) - c.q(r - h)) / (2 * h), 1e-5)))
+            env.claim("d2psidr2_r=d/dr_dpsidr_r", bool(env.close(c.d2psidr2_r(r), (c.dpsidr_r(r + h) - c.dpsidr_r(r - h)) / (2 * h), 1e-5)))
+            if ncoef == 1:
+                env.claim("dpsidr_r=d/dr_psi_r", bool(env.close(c.dpsidr_r(r), (c.psi_r(r + h) - c.psi_r(r - h)) / (2 * h), 1e-5)))
+        env.witness("evaluated")
+    return body
+
+
+def ob_circular_2d(env):
+    """R,Z functions of the circular equilibrium vs AD of psi(R,Z) = P(r(R,Z)) with P', P'' symbolic"""
+    c, circ, R0, B0 = _circ(env, [1.0])
+    p1, p2 = env.real("dpsidr", lo=0.1, hi=9), env.real("d2psidr2", lo=-9, hi=9)
+    c._dpsidr_r = lambda x: p1
+    c._d2psidr2_r = lambda x: p2
+    rho = env.real("rho", lo=0.1, hi=0.9)
+    u = env.real("u", lo=-3, hi=3)
+    cs, sn = (1 - u * u) / (1 + u * u), 2 * u / (1 + u * u)
+    R, Z = R0 + rho * cs, rho * sn
+    if env.mode == "sym":
+        env.sqrt_hints = [core.lift_real(rho)]
+        with patched((circ, "np", PROXY)):
+            rj = Jet2.lift(c.r(Jet2(R, 1, 0), Jet2(Z, 0, 1)))
+            env.claim_eq("r=rho", rj.v, rho)
+            psi = rj._chain(0 * rho, p1, p2)  # psi = P(r): first and second derivatives through the chain rule
+            g2 = psi.dR * psi.dR + psi.dZ * psi.dZ
+            env.claim_eq("f_R=psi_R/|grad psi|^2", c.f_R(R, Z), psi.dR / g2)
+            env.claim_eq("f_Z=psi_Z/|grad psi|^2", c.f_Z(R, Z), psi.dZ / g2)
+            env.claim_eq("Bp_R=psi_Z/R", c.Bp_R(R, Z), psi.dZ / R)
+            env.claim_eq("Bp_Z=-psi_R/R", c.Bp_Z(R, Z), -psi.dR / R)
+            env.claim_eq("d2psidR2", c.d2psidR2(R, Z), psi.dRR)
+            env.claim_eq("d2psidZ2", c.d2psidZ2(R, Z), psi.dZZ)
+            env.claim_eq("d2psidRdZ", c.d2psidRdZ(R, Z), psi.dRZ)
+            env.claim_eq("drdR", c.drdR(R, Z), rj.dR)
+            env.claim_eq("drdZ", c.drdZ(R, Z), rj.dZ)
+        env.witness("evaluated")
+    else:
+        # concrete: P(r) = p1*(r-rho) + p2/2*(r-rho)^2 around the point
+        P = lambda x: p1 * (x - rho) + 0.5 * p2 * (x - rho) ** 2  # noqa
+        psi = lambda a, b: P(float(c.r(a, b)))  # noqa
+        h = 1e-5
+        dR = (psi(R + h, Z) - psi(R - h, Z)) / (2 * h)
+        dZ = (psi(R, Z + h) - psi(R, Z - h)) / (2 * h)
+        env.claim("Bp_R=psi_Z/R", bool(env.close(c.Bp_R(R, Z), dZ / R, 1e-5)))
+        env.claim("Bp_Z=-psi_R/R", bool(env.close(c.Bp_Z(R, Z), -dR / R, 1e-5)))
+        env.claim("f_R=psi_R/|grad psi|^2", bool(env.close(c.f_R(R, Z), dR / (dR * dR + dZ * dZ), 1e-5)))
+        env.claim("d2psidR2", bool(env.close(c.d2psidR2(R, Z), (psi(R + h, Z) - 2 * psi(R, Z) + psi(R - h, Z)) / h ** 2, 1e-3)))
+        env.claim("d2psidZ2", bool(env.close(c.d2psidZ2(R, Z), (psi(R, Z + h) - 2 * psi(R, Z) + psi(R, Z - h)) / h ** 2, 1e-3)))
+        env.claim("d2psidRdZ", bool(env.close(c.d2psidRdZ(R, Z), (psi(R + h, Z + h) - psi(R + h, Z - h) - psi(R - h, Z + h) + psi(R - h, Z - h)) / (4 * h * h), 1e-3)))
+
+
 ENCH = ["hypnotoad.core.equilibrium:Equilibrium." + n for n in
         ("Bzeta", "B2", "dBzetadR", "dBzetadZ", "dBRdR", "dBRdZ", "dBZdR", "dBZdZ", "dB2dR", "dB2dZ", "dBdR", "dBdZ")]
 OBLIGATIONS.append(Ob("spline_closures", ob_closures, tier="quick", family="closures", encodes=["hypnotoad.core.equilibrium:Equilibrium.magneticFunctionsFromGrid"],
@@ -262,3 +343,12 @@ for (_a, _b) in ((2, 2), (3, 2)):
 OBLIGATIONS.append(Ob("handleMultiLocationArray", ob_multilocation_handler, tier="quick", family="dispatch",
                       encodes=["hypnotoad.core.equilibrium:Equilibrium.handleMultiLocationArray"],
                       desc="per-location application, scalar pass-through, mixed arguments refused", bounds="1x1 arrays, two locations present"))
+
+ENCC = ["hypnotoad.cases.circular:CircularEquilibrium." + n for n in ("q", "dqdr", "dpsidr_r", "d2psidr2_r", "psi_r", "r", "drdR", "drdZ", "f_R", "f_Z", "Bp_R", "Bp_Z",
+                                                                       "d2psidR2", "d2psidZ2", "d2psidRdZ")]
+for _n in (1, 2):
+    OBLIGATIONS.append(Ob("circular_profile_derivatives_%dcoef" % _n, _mk_circular_profile(_n), tier="quick", family="circular analytic", encodes=ENCC[:5],
+                          desc="dqdr, d2psidr2_r (and dpsidr_r for one q coefficient) are the r-derivatives of q, dpsidr_r, psi_r", bounds="0 < r < R0 (rational parametrisation); q coefficients in [0.5,5]"))
+OBLIGATIONS.append(Ob("circular_RZ_functions_vs_AD", ob_circular_2d, tier="quick", family="circular analytic", encodes=ENCC[5:],
+                      desc="f_R, f_Z, Bp_R, Bp_Z, d2psidR2, d2psidZ2, d2psidRdZ, drdR, drdZ equal the AD derivatives of psi(R,Z) = P(r(R,Z))",
+                      stubs=["dpsi/dr, d2psi/dr2 at the point -> symbols"], bounds="point at minor radius rho in (0.1,0.9), any poloidal angle but pi"))
